@@ -188,6 +188,10 @@ func svdFamily(c *inst, raw json.RawMessage, full bool, sum *core.Summary) {
 		}
 	}
 
+	if want("Dgebrd") {
+		svdPipeline(k, c, count)
+	}
+
 	// ---- mat.SVD --------------------------------------------------------------------------------
 	if want("SVD") && m >= 1 && n >= 1 && forcedNB == 0 {
 		for _, kind := range []mat.SVDKind{mat.SVDNone, mat.SVDThin, mat.SVDFull, mat.SVDThinU | mat.SVDFullV} {
